@@ -494,30 +494,40 @@ Proof. eexists. split; [vm_compute; reflexivity|]. vm_compute. repeat split; dis
 
 (* the auto-memmapping threshold: an array without a backing memmap is dumped to a temporary memmap iff it has
    no object dtype, a threshold is set and nbytes is STRICTLY above it; a memmap-backed array is always re-mapped *)
-Lemma forward_route_spec : forall has_backing hasobject dtype_kind max_nbytes nbytes,
-  exists rt, forward_route has_backing hasobject dtype_kind max_nbytes nbytes = Ok rt /\
+Lemma forward_route_spec : forall has_backing hasobject dtype_kind max_nbytes mmap_mode nbytes,
+  exists rt, forward_route has_backing hasobject dtype_kind max_nbytes mmap_mode nbytes = Ok rt /\
   (rt = RReduceBacked <-> has_backing = true) /\
-  (rt = RDumpTemp <-> has_backing = false /\ hasobject = false /\ exists t, max_nbytes = Some t /\ t < nbytes).
+  (rt = RDumpTemp <-> has_backing = false /\ hasobject = false /\ mmap_mode <> None /\
+                      exists t, max_nbytes = Some t /\ t < nbytes).
 Proof.
-  intros hb ho dk mx nb. unfold forward_route, forward_memmaps. destruct hb.
+  intros hb ho dk mx mm nb. unfold forward_route, forward_memmaps. destruct hb.
   - eexists. split; [reflexivity|]. split; split; intros H; auto; try discriminate. destruct H as [H _]. discriminate.
   - cbn [bind]. destruct ho; cbn [negb andb].
     + eexists. split; [reflexivity|]. split; split; intros H; try discriminate.
       destruct H as [_ [H _]]. discriminate.
-    + destruct mx as [t|].
+    + destruct mx as [t|]; [destruct mm as [m|]|].
       * destruct (nb >? t) eqn:E; eexists; (split; [reflexivity|]); split; split; intros H; try discriminate.
-        -- repeat split. exists t. split; [reflexivity|]. apply Z.gtb_lt in E. lia.
+        -- repeat split; [discriminate|]. exists t. split; [reflexivity|]. apply Z.gtb_lt in E. lia.
         -- reflexivity.
-        -- destruct H as [_ [_ [t' [Ht Hlt]]]]. injection Ht as <-. apply Z.gtb_lt in Hlt. rewrite Hlt in E. discriminate.
+        -- destruct H as [_ [_ [_ [t' [Ht Hlt]]]]]. injection Ht as <-. apply Z.gtb_lt in Hlt. rewrite Hlt in E. discriminate.
       * eexists. split; [reflexivity|]. split; split; intros H; try discriminate.
-        destruct H as [_ [_ [t' [Ht _]]]]. discriminate.
+        destruct H as [_ [_ [H _]]]. contradiction H. reflexivity.
+      * eexists. split; [reflexivity|]. split; split; intros H; try discriminate.
+        destruct H as [_ [_ [_ [t' [Ht _]]]]]. discriminate.
+Qed.
+
+(* mmap_mode=None ("None will disable memmapping"): an array without a backing memmap is pickled, whatever its size *)
+Lemma mmap_mode_none_pickles : forall hasobject dtype_kind max_nbytes nbytes,
+  forward_route false hasobject dtype_kind max_nbytes None nbytes = Ok RPickle.
+Proof.
+  intros ho dk mx nb. unfold forward_route, forward_memmaps. destruct ho, mx; reflexivity.
 Qed.
 
 (* a structured dtype with an object field (kind 'V' = 86, hasobject) is never dumped to a temporary memmap,
    however large: the file could not be memory-mapped by the worker *)
-Lemma object_field_never_memmapped : forall max_nbytes nbytes,
-  forward_route false true 86 max_nbytes nbytes = Ok RPickle.
-Proof. intros mx nb. unfold forward_route, forward_memmaps. destruct mx; reflexivity. Qed.
+Lemma object_field_never_memmapped : forall max_nbytes mmap_mode nbytes,
+  forward_route false true 86 max_nbytes mmap_mode nbytes = Ok RPickle.
+Proof. intros mx mm nb. unfold forward_route, forward_memmaps. destruct mx; reflexivity. Qed.
 
 (* array types: what comes back for each type that went in *)
 Lemma loaded_type_spec : forall via_mmap,
